@@ -62,7 +62,7 @@ CHECKS = {
     "C16": dict(tests=[rapid("e2e", "TestC16", 32, 1600, qs=16, ts=16, timeout=1500, ttimeout=14000, replay="(TestC16Replay|TestC16BatchReplay)", shrinktime="30s")]),  # one rapid check = a batch of 12 cases run concurrently
     "C17": dict(tests=[
         rapid("pure", "TestC17", 32000, 3200000, qs=8, shrinktime="8s"),
-        rapid("e2e", "TestC17Tier2", 480, 48000, qs=16, ts=16, timeout=900, ttimeout=7200, replay="TestC17Tier2Replay", shrinktime="20s"),  # a hanging request costs 10 s per attempt: do not shrink for long
+        rapid("e2e", "TestC17Tier2", 480, 16000, qs=16, ts=16, timeout=900, ttimeout=7200, replay="TestC17Tier2Replay", shrinktime="20s"),  # a hanging request costs 10 s per attempt: do not shrink for long
         fuzz("pure", "FuzzC17Request", 120),
     ]),
     "C18": dict(tests=[
